@@ -200,6 +200,51 @@ func genC20(g *Gen, tier string, w *bufio.Writer) {
 			fmt.Fprintf(w, "mem %s %s\n", t, hexs(bs))
 		}
 	}
+	emitWrapProbes(w, "mem")
+}
+
+// wrapProbeTypes: lists of variable-size elements whose element type has minimum encoded size m,
+// for m with 4+m a power of two and otherwise (an offset-derived element count times m, or
+// times 4+m, is where 32-bit products wrap), with huge limits.
+func wrapProbeTypes() []*Ty {
+	u8 := &Ty{Kind: KUint, N: 1}
+	inner := &Ty{Kind: KList, N: 1 << 40, Elem: u8}
+	var out []*Ty
+	for _, fixed := range []uint64{0, 4, 12, 28, 60, 124, 252, 508, 1020, 1, 3, 7, 96} {
+		el := &Ty{Kind: KContainer, Fields: []*Ty{inner}}
+		if fixed > 0 {
+			el = &Ty{Kind: KContainer, Fields: []*Ty{{Kind: KVector, N: fixed, Elem: u8}, inner}}
+		}
+		out = append(out, &Ty{Kind: KList, N: 1 << 40, Elem: el})
+	}
+	out = append(out,
+		&Ty{Kind: KList, N: 1 << 40, Elem: &Ty{Kind: KUnion, Fields: []*Ty{u8}}},
+		&Ty{Kind: KList, N: 1 << 40, Elem: &Ty{Kind: KBitlist, N: 1 << 40}},
+		&Ty{Kind: KList, N: 1 << 40, Elem: &Ty{Kind: KList, N: 1 << 40, Elem: &Ty{Kind: KUint, N: 8}}},
+	)
+	return out
+}
+
+// wrapProbeWords: offset words around every power of two and a few odd multiples.
+func wrapProbeWords() []uint32 {
+	var out []uint32
+	for k := uint(2); k < 32; k++ {
+		p := uint32(1) << k
+		out = append(out, p, p-4, p+4, p|p>>1, p-1)
+	}
+	return append(out, 0xfffffffc, 0xffffffff, 0xaaaaaaa8, 0x55555554, 0xcccccccc)
+}
+
+func emitWrapProbes(w *bufio.Writer, op string) {
+	for _, t := range wrapProbeTypes() {
+		for _, a := range wrapProbeWords() {
+			for _, n := range []int{4, 8, 64} {
+				bs := make([]byte, n)
+				bs[0], bs[1], bs[2], bs[3] = byte(a), byte(a>>8), byte(a>>16), byte(a>>24)
+				fmt.Fprintf(w, "%s %s %s\n", op, t, hexs(bs))
+			}
+		}
+	}
 }
 
 // conc <n> <seed> <hashmode> T V: n goroutines each run an independent random history on their
